@@ -82,8 +82,17 @@ func classifyC11(c c11Case) ev.Class {
 	return ev.Class{NonTrivial: nt, Key: strings.Join(all, "\x00") + "|" + strings.Join(c.Targets, ";") + "|" + c.Delim + fmt.Sprint(c.Recurse), Labels: uniq(labels)}
 }
 
+var devNull *os.File
+
 // compileInProcess runs compiler.Compile with panic capture.
 func compileInProcess(root, gen, out, delim string, recurse bool) (err error, panicked string) {
+	// the compiler prints warnings straight to stdout; keep the test output clean
+	if devNull == nil {
+		devNull, _ = os.OpenFile(os.DevNull, os.O_WRONLY, 0)
+	}
+	oldStdout := os.Stdout
+	os.Stdout = devNull
+	defer func() { os.Stdout = oldStdout }()
 	ok, p := within(60*time.Second, func() {
 		defer globals.Reset()
 		err = compiler.Compile(compiler.Options{File: root, Gen: gen, Out: out, Delim: delim, Recurse: recurse})
